@@ -80,6 +80,39 @@ class Src:
         return iter([[slot, i] for i in range(n)])
 
 
+ITER_EXCS = {"ValueError": ValueError, "AttributeError": AttributeError, "KeyError": KeyError, "IndexError": IndexError,
+             "TypeError": TypeError, "RuntimeError": RuntimeError, "ZeroDivisionError": ZeroDivisionError, "NamingError": E.NamingError}
+
+
+class SeqBase:
+    """focus shape 'iterate the proxy': a sequence-like remote object; `for x in proxy` streams its __iter__ generator, which
+    raises an exception of a chosen class at position `bad`"""
+
+    def __init__(self, n, bad, exc):
+        self.n, self.bad, self.exc = n, bad, exc
+
+    @api.expose
+    def __iter__(self):
+        def g():
+            for i in range(self.n):
+                if i == self.bad:
+                    raise ITER_EXCS[self.exc]("boom-%d" % i)
+                yield [7, i]
+        return g()
+
+    @api.expose
+    def __len__(self):
+        return self.n
+
+
+class SeqIndexed(SeqBase):
+    @api.expose
+    def __getitem__(self, i):
+        if not 0 <= i < self.n:
+            raise IndexError(i)
+        return [7, i]
+
+
 @api.expose
 class SlowSrc:
     """focus shape 'slow item': a generator whose item k takes `slow` virtual seconds to produce"""
@@ -236,7 +269,7 @@ class StreamWorld(World):
               "reconnect_within_linger", "reconnect_after_linger", "terminated_error", "client_local_closed",
               "streaming_disabled", "two_proxies", "concurrent_streams", "multiplex", "thread", "housekeeping_observed",
               "temp_proxy_close", "client_local_stop", "preempted", "raced",
-              "connection_dropped", "continued_after_drop", "concurrent_ops", "client_correlation_id", "disconnect_during_table_change", "chatter", "combined", "combined_slave_idle_expiry", "external_loop", "reply_lost", "continued_after_lost_reply", "fetch_during_disconnect", "stalled", "foreign_thread_close", "foreign_thread_finalize", "transient_socket_errors", "slow_fetch_timed_out"]
+              "connection_dropped", "continued_after_drop", "concurrent_ops", "client_correlation_id", "disconnect_during_table_change", "chatter", "combined", "combined_slave_idle_expiry", "external_loop", "reply_lost", "continued_after_lost_reply", "fetch_during_disconnect", "stalled", "foreign_thread_close", "foreign_thread_finalize", "transient_socket_errors", "slow_fetch_timed_out", "iterated_proxy", "iterated_proxy_generator_raises"]
     # also counted, but too schedule-dependent to demand: "fetch_before_old_disconnect", "expired_but_still_answers"
     RULE = ("plan = (server type, serializer, ITER_STREAMING on/off, ITER_STREAM_LIFETIME in {0,5,20}, ITER_STREAM_LINGER in "
             "{0,3,10}, 18% of the multiplex plans 'combined': the streams live on a second daemon served by the first one's loop (Daemon.combine), "
@@ -312,6 +345,15 @@ class StreamWorld(World):
                     "lifetime": rng.choice([0, 0, 20]), "linger": rng.choice([0, 3, 10, 30]), "nproxies": 1, "streams": [], "ops": [],
                     "slowfetch": {"k": k, "n": k + rng.randint(2, 4), "slow": rng.choice([3.0, 6.0]), "timeout": 1.0,
                                   "wait_more": rng.choice([0.0, 2.0, 12.0]), "settle_before_close": rng.random() < 0.3},
+                    "p_block": rng.choice([0.0, 0.0, 0.3]), "net": {"shuffle_select": rng.random() < 0.5}}
+        if rng.random() < 0.05:
+            # focus shape "iterate the proxy": for x in proxy -> the remote __iter__ generator is streamed; it raises an exception of
+            # some class at some position (or not at all); the object may support indexing too
+            n = rng.randint(1, 5)
+            return {"servertype": rng.choice(["thread", "multiplex"]), "serializer": rng.choice(SERIALIZERS), "streaming": True,
+                    "lifetime": 0, "linger": rng.choice([0, 10]), "nproxies": 1, "streams": [], "ops": [],
+                    "iterproxy": {"n": n, "bad": rng.choice([-1, rng.randint(0, n), rng.randint(0, n)]),
+                                  "exc": rng.choice(sorted(ITER_EXCS)), "getitem": rng.random() < 0.6},
                     "p_block": rng.choice([0.0, 0.0, 0.3]), "net": {"shuffle_select": rng.random() < 0.5}}
         servertype = rng.choice(["thread", "multiplex"])
         streaming = rng.random() >= 0.07
@@ -604,12 +646,64 @@ class StreamWorld(World):
         try:
             if plan.get("slowfetch"):
                 self._slowfetch(ctx, run, its)
+            elif plan.get("iterproxy"):
+                self._iterproxy(ctx, run, its)
             else:
                 self._drive(ctx, run, its)
         finally:
             _Run.cur = None
             for it in its.values():     # _StreamResultIterator.__del__ calls close(): make that a no-op at teardown
                 it.proxy = None
+
+    def _iterproxy(self, ctx, run, its):
+        """focus shape 'iterate the proxy' (own small oracle; see gen)"""
+        plan, sched, ip = ctx.plan, ctx.sched, ctx.plan["iterproxy"]
+        srv = Server(ctx, plan["servertype"], daemon_cls=ObsDaemon, polltimeout=POLL)
+        daemon = srv.daemon
+        n, bad = ip["n"], ip["bad"]
+        uri = srv.register((SeqIndexed if ip["getitem"] else SeqBase)(n, bad, ip["exc"]), "seq")
+        px = CL.Proxy(uri)
+        want = [[7, i] for i in range(n if bad < 0 or bad >= n else bad)]
+        want_exc = ip["exc"] if 0 <= bad < n else None
+        got, err = [], None
+        try:
+            for x in px:
+                got.append(list(x))
+                if len(got) > 3 * n + 3:
+                    break
+        except Exception as x:  # noqa
+            err = x
+        ctx.nontrivial = True
+        ctx.probe("iterated_proxy")
+        if want_exc:
+            ctx.probe("iterated_proxy_generator_raises")
+        if isinstance(err, E.CommunicationError):
+            ctx.disturbed = "iteration lost its connection: %s" % err
+            return
+        what = "for x in proxy over %d items%s" % (n, (", generator raises %s at position %d" % (want_exc, bad)) if want_exc else "")
+        if got[:len(want)] != want:
+            ctx.violate("wrong-item", "iterate-proxy", "%s delivered %r" % (what, got))
+        elif len(got) > len(want):
+            ctx.violate("item-repeated", "iterate-proxy:" + (want_exc or "stop"), "%s delivered %r: more than the generator produced"
+                        % (what, got))
+        if want_exc and got[:len(want)] == want:
+            if err is None:
+                ctx.violate("generator-exception-lost", "iterate-proxy:" + want_exc, "%s ended without the generator's exception after %r"
+                            % (what, got))
+            elif type(err).__name__ != want_exc:
+                ctx.violate("generator-exception-lost", "iterate-proxy:wrong:" + want_exc, "%s raised %s: %s instead of the generator's "
+                            "exception" % (what, type(err).__name__, err))
+            else:
+                ctx.probe("generator_exception")
+        elif not want_exc and err is not None:
+            ctx.violate("error-while-live", "iterate-proxy", "%s raised %s: %s" % (what, type(err).__name__, err))
+        sched.settle()
+        sched.sleep(2 * POLL + 1)
+        sched.settle()
+        if daemon.streaming_responses:
+            ctx.violate("stream-leaked", "iterate-proxy", "%d stream(s) left in the table after the iteration ended" % len(daemon.streaming_responses))
+        px._pyroRelease()
+        daemon.shutdown()
 
     def _slowfetch(self, ctx, run, its):
         """focus shape 'slow item' (own small oracle; see gen)"""
